@@ -10,7 +10,7 @@ func init() { Registry["C03"] = c03 }
 
 func c03(e *Env) {
 	r := e.R
-	r.Explanation = "Structural necessary conditions of crash/restart convergence, decided for every path (= every crash point) of Task.Execute and Process.Run: (R1) scenario 'the leftover test found the task's temp dir' ⇒ a never-returning call is inevitable and no acquire/mkdir/command/rename is reachable; the leftover test precedes the skip test and any Done signal (leftovers are refused, not adopted, even when outputs exist); (R2) bracket: the temp dir is created before every other file-system effect of Execute and nothing is written or renamed after its removal, so any crash between the first and the last effect leaves the temp dir, which R1 turns into a refusal; (R3) the audit record of every output is written before the first rename, so whatever a restart finds finalised has its provenance; (R4) Process.Run: an existing FIFO ⇒ exit before CreateFifo and before the task goroutine starts; (R5) shared: finished tasks are skipped (C02.R2); (R6) contradiction rule: one missing declared output must not be treated as 'task complete' (skip predicate vs one independent rename per output)."
+	r.Explanation = "Structural necessary conditions of crash/restart convergence, decided for every path (= every crash point) of Task.Execute and Process.Run: (R1) scenario 'the leftover test found the task's temp dir' ⇒ a never-returning call is inevitable and no acquire/mkdir/command/rename is reachable; the leftover test precedes the skip test and any Done signal (leftovers are refused, not adopted, even when outputs exist); (R2) bracket: the temp dir is created before every other file-system effect of Execute and nothing is written or renamed after its removal, so any crash between the first and the last effect leaves the temp dir, which R1 turns into a refusal; (R3) the audit record of every output is written before the first rename, so whatever a restart finds finalised has its provenance; (R4) Process.Run: an existing FIFO ⇒ exit before CreateFifo and before the task goroutine starts; (R5) shared: finished tasks are skipped (C02.R2); (R7) shared with C17.R6: a task that the re-run skips still opens and drains the pipes of its streaming inputs, concurrently and until the producing process has removed them, so the re-run of a workflow with streaming connections completes; (R6) contradiction rule: one missing declared output must not be treated as 'task complete' (skip predicate vs one independent rename per output)."
 	r.NotDecided = "equality of file contents with an uninterrupted run (needs deterministic commands), crashes inside the OS calls themselves, convergence as a whole (a history property)."
 	a := e.anchors()
 	if !a.ok() {
@@ -103,6 +103,8 @@ func c03(e *Env) {
 	}
 	// ---- R4 FIFO leftovers in Process.Run
 	e.fifoLeftoverRule("R4")
+	// ---- R7 shared with C17.R6: the re-run completes also past streaming connections (a skipped consumer drains its pipes)
+	e.c17DrainOnSkip("R7")
 	// ---- R6 contradiction rule (finding K7)
 	ob6 := r.Ob("R6", "Execute:skip-any×rename-each", "a task with one declared output missing is not treated as complete (the skip predicate must agree with one independent rename per output)")
 	for _, n := range sp.skipStat {
